@@ -218,7 +218,10 @@ func runJob(ld *Loaded, base *sym.State, j Job, opt Options) JobResult {
 					r.UnknownObl++
 					r.Notes = append(r.Notes, fmt.Sprintf("PO scenario %d: query %s unknown/timeout", out.Scenario, q.Name))
 				case smt.Sat:
-					if len(q.FailedEv) == 0 {
+					for _, rc := range q.Races {
+						r.Violations = append(r.Violations, sym.Violation{Label: "C19/data-race", Msg: rc.Key(), Pos: rc.Key(), History: poTraceText(q)})
+					}
+					if len(q.FailedEv) == 0 && len(q.Races) == 0 {
 						r.Violations = append(r.Violations, sym.Violation{Label: "po", Msg: strings.Join(q.Failed, "; "), Pos: q.Name, History: poTraceText(q)})
 					}
 					for _, e := range q.FailedEv {
@@ -228,7 +231,11 @@ func runJob(ld *Loaded, base *sym.State, j Job, opt Options) JobResult {
 				for _, kw := range q.KnownHit {
 					res.KnownHits = append(res.KnownHits, kw)
 				}
-				r.Samples = append(r.Samples, fmt.Sprintf("PO scenario %d query %s: %s by %s in %.1fs over %d events", out.Scenario, q.Name, q.Res, q.Solver, q.Time.Seconds(), q.Events))
+				extra := ""
+				if q.Name == "race" {
+					extra = fmt.Sprintf(", %d candidate conflicting pairs (same location, different threads, >=1 write, >=1 plain access)", q.Asserts)
+				}
+				r.Samples = append(r.Samples, fmt.Sprintf("PO scenario %d query %s: %s by %s in %.1fs over %d events%s", out.Scenario, q.Name, q.Res, q.Solver, q.Time.Seconds(), q.Events, extra))
 			}
 		}
 	}
@@ -421,6 +428,7 @@ func RunProperty(opt Options) int {
 		inconclusive                        []string
 		reachTotal, reachHit                int
 		tracesValidated                     int
+		twinsOK                             int
 	)
 	ends := map[string]int{}
 	for _, res := range results {
@@ -469,6 +477,16 @@ func RunProperty(opt Options) int {
 				knownPrinted[kw] = true
 				fmt.Printf("KNOWN-FINDING: property=%s %s\n", opt.Prop, kw)
 			}
+		}
+		if res.Job.H.Twin {
+			// vacuity twin: must be violated; its violations are not reported
+			if len(res.Violations) == 0 {
+				broken = append(broken, name+": vacuity twin was not violated (the query cannot see what it is meant to see)")
+			} else {
+				notes = append(notes, fmt.Sprintf("%s: vacuity twin violated as expected (%s)", name, res.Violations[0].Label))
+				twinsOK++
+			}
+			continue
 		}
 		// violations: dedupe by label+pos
 		seen := map[string]bool{}
@@ -570,6 +588,7 @@ func RunProperty(opt Options) int {
 		"inconclusive":                  inconclusive,
 		"notes":                         capList(append(initNotes, notes...), 40),
 		"loop_bound":                    ld.Eng.LoopBound,
+		"vacuity_twins_violated":        twinsOK,
 		"solver":                        solverName(opt) + " (persistent process, push/pop per query)",
 		"explanation":                   "bounded symbolic execution of the real SSA of /repo; every assertion is one SMT query over all values inside the stated bounds",
 	}
